@@ -1036,6 +1036,10 @@ fn case_iterator_faults(out: &mut CaseOut, seed: u64, idx: u64) {
     let ctx = json!({"family": "iterator-under-transient-read-faults", "config": cfg.describe(), "table_files": files, "visible_entries": sess.model.len()});
     let mut checker = CursorChecker::new(it, &sess.model);
     checker.tolerate_reported_errors = true;
+    {
+        let fs = fs.clone();
+        checker.fault_probe = Some(std::sync::Arc::new(move || fs.fault_fired().0));
+    }
     let mut fired = 0u64;
     for _round in 0..(if level0_heavy { 300 } else { 40 }) {
         let kind = if rng.chance(0.8) { OpKind::Read } else { OpKind::OpenRead };
